@@ -272,6 +272,9 @@ def tasks(tier):
     for masked in ("no", "rank1", "dim"):
       for before in (False, True):
         ts.append(Task(f"tearfree graft[{gt},masked={masked},before_start={before}]", mk_tf(gt, masked, before)))
+  # the graft step ITSELF with beta2 == 1 (w2 = 1, nu' = nu + g^2): shared with C02-P1 (seed C05-g)
+  from contracts import c02
+  ts += [t for t in c02.tasks(tier) if t.name.startswith("_transform_grad[") and t.name.endswith(",beta2=1]")]
   return ts
 
 
